@@ -919,6 +919,8 @@ class Interp:
                     o[k] = v
                 except (IndexError, TypeError) as e:
                     raise InterpRaise(type(e).__name__, str(e), tg, module=module)
+            elif isinstance(o, NativeModel) and hasattr(o, "__setitem__"):
+                o[k] = v
             else:
                 raise Unsupported("subscript store on %s" % type(o).__name__, tg, module)
         else:
@@ -1072,6 +1074,8 @@ class Interp:
                 if isinstance(v, MatVal):
                     return cm.unop("not")(v)
                 return not self.truth(v, n)
+            if isinstance(n.op, ast.Invert) and isinstance(v, NativeModel):
+                return ~v
             raise Unsupported("unary operator", n)
         if t is ast.Compare:
             l = self.ev(n.left, env, module)
@@ -1295,6 +1299,14 @@ class Interp:
         dn = self.OPN.get(on)
         if dn is None:
             raise Unsupported("operator %s" % on, n)
+        if isinstance(l, NativeModel) or isinstance(r, NativeModel):
+            # a rule-supplied stand-in: its own Python operators (used by the sympy result model of C19)
+            f_ = {"add": O.add, "sub": O.sub, "mul": O.mul, "truediv": O.truediv, "pow": O.pow, "mod": O.mod, "matmul": O.matmul,
+                  "floordiv": O.floordiv, "or": O.or_, "and": O.and_}[dn]
+            try:
+                return f_(l, r)
+            except TypeError as e:
+                raise InterpRaise("TypeError", str(e), n)
         if isinstance(l, Instance):
             m, _ = l.cls.lookup("__%s__" % dn)
             if m is not None:
